@@ -4,6 +4,7 @@ import RactorModel.Lemmas.LifeC03Spec
 import RactorModel.Lemmas.LifeWorld
 import RactorModel.Lemmas.LifeLive
 import RactorModel.Lemmas.LifeDrain
+import RactorModel.Lemmas.LifeRace
 
 /-!
 # C03 — Kill > stop > supervision > messages; stop is graceful, kill immediate
@@ -453,6 +454,42 @@ example : effCount ((Actor.init 0).run [.spawn none none true false true, .resum
     [.resume ⟨[], .ok⟩, .poll, .supArrive (.started 7), .send 3, .resume ⟨[], .ok⟩, .poll, .resume ⟨[], .ok⟩, .poll,
     .resume ⟨[], .ok⟩, .poll, .resume ⟨[], .ok⟩, .poll] = 5 := by decide
 
+/-! ### Poll atomicity: a kill landing INSIDE a poll (wave 2, audit §4 / §5.4)
+
+The model's poll is atomic: `listen` / `pollOpen` test the signal port and go on within one op. On a multi-thread
+runtime a `kill()` issued from another OS thread can land between the signal test of `run_with_signal` /
+`select!{biased}` and the rest of that same poll; `kill()` has then returned while the poll still starts a callback
+or runs one more segment — an order of events (`killRet … true` BEFORE `enter`/`tick`/`exit` of that poll) the
+strict automaton `C03.next` rejects and no run of the single-thread engine produces. That racing poll computes
+exactly what `poll` computes on the state its signal test saw, and the kill is in the port afterwards, i.e. the
+state after the race is the state after `[poll, kill]`. The two theorems bound the violation: what the racing poll
+can still do, and that the next poll ends the actor without any further progress. -/
+
+/-- **One poll emits at most one `enter`, one `tick` and one `exit`**: the callback progress that can follow a
+`kill()` that returned in the middle of a poll is at most one segment of the open callback (`tick`, `exit`) and
+the start of at most one callback (`enter`). For every state, reachable or not. -/
+theorem poll_progress_bounded (a : Actor) : B3 (a.step .poll).2 1 1 1 := step_poll_B3 a
+
+/-- **… and the next poll cancels.** `a` reachable; `b` = after a poll (the one the kill raced with), `c` = after the
+kill that the signal port accepted during it: every poll of the actor's task from `c` ends the actor (`Stopped`,
+guard disarmed) with no callback progress at all, and so does every continuation that contains one
+(`kill_pending_reaches_stopped`). The relaxed oracle for a multi-thread harness is therefore: after `killRet … true`
+at most the progress of ONE poll (`poll_progress_bounded`), then none. -/
+theorem kill_inside_poll_bounded (a : Actor) (hr : Reach a)
+    (hacc : (apiKill (a.step .poll).1).2 = true) (op : AOp)
+    (hp : taskPoll ((a.step .poll).1.step .kill).1 op = true) :
+    Dead (((a.step .poll).1.step .kill).1.step op).1 ∧
+    ∀ e ∈ evs (((a.step .poll).1.step .kill).1.step op).2, Life.C03.isProgress e = false :=
+  kill_next_poll _ (reach_step _ _ (reach_step _ _ hr)) (kill_step_sigVal _ hacc) op hp
+
+-- the strict automaton rejects the racing order, the bound is what remains true
+example : Life.C03.ok [.enter .handle (.msg 1), .killRet false true, .tick .handle, .exit .handle .ok,
+    .enter .handle (.msg 2)] = false := by decide
+-- a poll that really emits one tick, one exit and one enter
+example : ((evs (((Actor.init 0).run [.spawn none none true false true, .resume ⟨[], .ok⟩, .pollSpawn true, .poll,
+    .resume ⟨[], .ok⟩, .send 1, .send 2, .poll, .resume ⟨[], .ok⟩]).1.step .poll).2).filter Life.C03.isProgress)
+    = [.tick .handle, .exit .handle .ok, .enter .handle (.msg 2)] := by decide
+
 end C03
 
 #print axioms C03.priority
@@ -484,3 +521,5 @@ end C03
 #print axioms C03.drain_enqueues_marker
 #print axioms C03.drain_pending_progress
 #print axioms C03.drain_reaches_stopped
+#print axioms C03.poll_progress_bounded
+#print axioms C03.kill_inside_poll_bounded
